@@ -57,6 +57,7 @@ def field_types(E, body, kind):
 def run(res, tier):
     res.functions += ["utils::binio Compose/Parse for u8, u32, u64, i64 (quick), Uuid, rrdp::Hash (thorough): Kani round trip through a fixed stack buffer"]
     res.bounds += ["scalar encodings: every value of the full width is symbolic; the reader must return the value and be left empty",
+                   "container parsers (HashMap): the item loop's range is 0..decoded length, for every 64-bit length",
                    "records: the sequence of field encodings written by write()/compose() must equal, type by type, the "
                    "sequence read by read()/parse() on their longest paths"]
     res.outside += ["Option<i64>: its parser's error arm builds an io::Error from a string, whose drop glue exhausts CBMC's "
@@ -84,5 +85,110 @@ def run(res, tier):
             fn = mprop.write_cex(res, "asymmetric_%s" % ty, mir.Path(mir.State(), {}, "static"), E,
                                  "%s writes %s but reads %s" % (ty, ws, rs))
             res.violation("mir:record-asymmetry:" + ty, "%s: the fields read back (%s) differ in order or type from the fields written (%s)" % (ty, rs, ws), fn)
+    n += check_counted_loops(res, E)
     res.distinct += n
     mprop.finish_engine(res, E)
+
+
+def check_counted_loops(res, E):
+    """Container parsers: the item loop runs exactly as often as the decoded length field says (0..len with the
+    decoded value itself, not a clamped or otherwise derived one); the writer stores the container's len()."""
+    import z3
+    from gating import must
+    n = 0
+    for name, bodies in E.prog.bodies.items():
+        if not re.search(r"binio::<impl at src/utils/binio\.rs:[^>]*>::parse$", name):
+            continue
+        for b in bodies:
+            b.parse()
+            txt = "\n".join(st for blk in b.blocks.values() for st in blk["stmts"])
+            if not re.search(r"Range::<usize>|Range<usize>", txt):
+                continue
+            lens = []
+
+            def m_len(E_, st, frame, callee, argvals, dest_ty, lens=lens):
+                E_.fresh_n += 1
+                L = z3.BitVec("decoded_length!%d" % E_.fresh_n, 64)
+                lens.append(L)
+                d = z3.Int("length_read!%d" % E_.fresh_n)
+                st.cond.append(z3.Or(d == 0, d == 1))
+                return {("disc",): d, (("v", "Ok"), ("f", 0)): L}
+
+            def m_map_err(E_, st, frame, callee, argvals, dest_ty):
+                # Result::map_err keeps the discriminant and the Ok payload
+                v = argvals[0]
+                if ("disc",) not in v:
+                    return NotImplemented
+                return {k: x for k, x in v.items() if k == ("disc",) or (k and k[0] == ("v", "Ok"))}
+
+            paths = E.explore(b, max_visits=2, nomut=[r"."], models={r"^<u64 as (binio::)?Parse<R>>::parse$": m_len,
+                                                                     r"Result::<usize, .*>::map_err::<": m_map_err})
+            ty = b.ret
+            res.functions.append("utils::binio Parse for %s: counted item loop (MIR)" % re.sub(r"^Result<(.*), binio::ParseError>$", r"\1", ty)[:60])
+            seen = 0
+            for i, p in enumerate(paths):
+                its = [e for e in p.events if e.kind == "call" and re.search(r"Range<usize> as IntoIterator>::into_iter$", e.callee or "")]
+                for e in its:
+                    a = e.args[0]
+                    start, end = a.get((("f", 0),)), a.get((("f", 1),))
+                    seen += 1
+                    n += 1
+                    good = mir.is_z(start) and mir.is_z(end) and lens and must(E, p, start == 0) and any(
+                        L.size() == end.size() and must(E, p, end == L) for L in lens)
+                    if not good:
+                        mdl = E.model(p.cond, z3.And([end != L for L in lens if mir.is_z(end) and L.size() == end.size()])) if mir.is_z(end) else None
+                        what = ("the parser of %s iterates %s times for a decoded length %s" % (
+                            ty[:50], mdl.eval(end, True).as_long() if mdl is not None else "?", 
+                            mdl.eval(lens[0], True).as_long() if mdl is not None and lens else "?"))
+                        fn = mprop.write_cex(res, "counted_loop_%d" % i, p, E, what, mdl)
+                        if not any(v["key"] == "mir:container-loop-count" for v in res.violations) and "loop" not in _NATIVE:
+                            want = mdl.eval(lens[0], True).as_long() if mdl is not None and lens else 70000
+                            ok = native_map_roundtrip(res, want)
+                            _NATIVE["loop"] = ok
+                            if ok is False:
+                                res.inconclusive.append("container loop count: %s - did not reproduce natively" % what)
+                            else:
+                                res.violation("mir:container-loop-count",
+                                              "a container parser does not read as many items as its length field says: " + what +
+                                              " (entries beyond that are silently dropped and left unread)%s"
+                                              % ("; reproduced natively" if ok else ""), fn)
+                    break
+            if seen == 0:
+                res.inconclusive.append("container parser %s: item loop not found on any path" % ty[:50])
+            res.samples.append({"container_parser": ty[:60], "paths": len(paths), "loops_checked": seen})
+    return n
+
+
+_NATIVE = {}
+
+
+def native_map_roundtrip(res, entries):
+    """Round trip of a real HashMap<u64, u64> with `entries` entries (capped at 300000) and a few boundary sizes."""
+    import os
+    import nativetest
+    from vcommon import VERIF
+    entries = max(1, min(int(entries), 300000))
+    src = """// generated by props/c28.py: native round trip of the delta-state map codec at a solver-found size
+use super::*;
+#[test]
+fn c28_native_map_roundtrip() {
+    let mut bad = Vec::new();
+    for n in [0usize, 1, 3, 65535, 65536, 65537, %d] {
+        let map: HashMap<u64, u64> = (0..n as u64).map(|i| (i, i.wrapping_mul(0x9e3779b97f4a7c15))).collect();
+        let mut buf = Vec::new();
+        map.compose(&mut buf).unwrap();
+        let mut rd = &buf[..];
+        let back = HashMap::<u64, u64>::parse(&mut rd);
+        let ok = matches!(&back, Ok(m) if *m == map) && rd.is_empty();
+        println!("C28-NATIVE map with {} entries: round trip {} ({} bytes left unread)", n, if ok { "exact" } else { "DIFFERS" }, rd.len());
+        if !ok { bad.push(n) }
+    }
+    assert!(bad.is_empty(), "maps that do not read back as written: {:?}", bad);
+}
+""" % entries
+    with open(os.path.join(VERIF, "native", "c28_generated.rs"), "w") as f:
+        f.write(src)
+    failed, passed, out = nativetest.run_native_test("native_c28", "c28_native_map_roundtrip")
+    obs = re.findall(r"C28-NATIVE (.*)", out)
+    res.extra.setdefault("native_replays", []).append({"test": "c28_native_map_roundtrip", "failed": failed, "observed": obs[:8] or [out[-300:]]})
+    return True if failed else (False if passed else None)
